@@ -62,8 +62,13 @@ func VerifC24Streaming() {
 	l := vrt.Choice("payloadLength", 5)
 	payload := vrt.Bytes("payload", l)
 	declared := uint64(vrt.IntRange("declaredPayloadLength", 0, 6))
-	var cs [32]byte
-	copy(cs[:], vrt.Bytes("declaredChecksum", 32))
+	// the declared checksum is the payload's SHA-256 or differs from it in one
+	// bit (SHA-256 is an uninterpreted function for the solver: a freely chosen
+	// checksum that "happens to match" could not be replayed against the real code)
+	cs := sha256.Sum256(payload)
+	if !vrt.Bool("declaredChecksumIsThePayloadHash") {
+		cs[0] ^= 1
+	}
 	unprepared := vrt.Bool("objectToBeSlicedByTheNode")
 	formatOK := vrt.Bool("headerPassesFormatValidation")
 	asked := 0
@@ -149,8 +154,13 @@ func VerifC24Replicated() {
 	l := vrt.Choice("payloadLength", 5)
 	payload := vrt.Bytes("payload", l)
 	declared := uint64(vrt.IntRange("declaredPayloadLength", 0, 6))
-	var cs [32]byte
-	copy(cs[:], vrt.Bytes("declaredChecksum", 32))
+	// the declared checksum is the payload's SHA-256 or differs from it in one
+	// bit (SHA-256 is an uninterpreted function for the solver: a freely chosen
+	// checksum that "happens to match" could not be replayed against the real code)
+	cs := sha256.Sum256(payload)
+	if !vrt.Bool("declaredChecksumIsThePayloadHash") {
+		cs[0] ^= 1
+	}
 	formatOK, contentOK := vrt.Bool("headerPassesFormatValidation"), vrt.Bool("contentPassesValidation")
 	objectcore.VerifHookValidate = func(*object.Object, bool) error {
 		if !formatOK {
